@@ -16,6 +16,7 @@ mod d_reward;
 mod d_token;
 mod d_hubauth;
 mod d_hubseq;
+mod d_dispcfg;
 
 pub struct Rng(pub u64);
 impl Rng {
@@ -53,6 +54,7 @@ fn driver(name: &str) -> Box<dyn Driver> {
         "token_world" => Box::new(d_token::TokenWorld),
         "hub_auth" => Box::new(d_hubauth::HubAuth),
         "hub_seq" => Box::new(d_hubseq::HubSeq),
+        "disp_cfg" => Box::new(d_dispcfg::DispCfg),
         other => {
             if let Some(d) = d_hub::driver(other) { return d; }
             if let Some(d) = d_misc::driver(other) { return d; }
